@@ -1305,6 +1305,78 @@ theorem dictOf_mem_iff (ps : List (Int × Int)) (k v : Int) :
   have := dictSetAll_mem_iff ps [] k v
   simpa [dictOf] using this
 
+/-- witnesses of the defect: a 2-mode left processor without ports, a bare 1-mode component -/
+def exLp0 : Side :=
+  { comp := false, m := 2, cs := 2, conn := [true, true], heralds := [], dets := [none, none], outp := [], inp := [],
+    outNames := ["", ""], inNames := ["", ""], ps := none }
+
+def exC1' : Side :=
+  { comp := true, m := 1, cs := 1, conn := [true], heralds := [], dets := [], outp := [], inp := [],
+    outNames := [], inNames := [], ps := none }
+
+/-- every accepted item contributes its pairs to the concatenation -/
+theorem allPairs_item_sub (fx : RFlags) (l r : Side) (items : List (MKey × MVal)) (ps : List (Int × Int))
+    (h : allPairs fx l r items = .ok ps) (it : MKey × MVal) (hit : it ∈ items) :
+    ∃ q, itemPairs fx l r it = .ok q ∧ ∀ p ∈ q, p ∈ ps := by
+  induction items generalizing ps with
+  | nil => simp at hit
+  | cons a rest ih =>
+    rw [allPairs_cons] at h
+    cases hi : itemPairs fx l r a with
+    | error e => rw [hi] at h; cases h
+    | ok q =>
+      rw [hi] at h
+      cases hr : allPairs fx l r rest with
+      | error e => rw [hr] at h; cases h
+      | ok qs =>
+        rw [hr] at h
+        cases h
+        rcases List.mem_cons.1 hit with rfl | hit'
+        · exact ⟨q, hi, fun p hp => List.mem_append_left _ hp⟩
+        · obtain ⟨q', h1, h2⟩ := ih qs hr hit'
+          exact ⟨q', h1, fun p hp => List.mem_append_right _ (h2 p hp)⟩
+
+/-- **no item is ignored** (repaired behaviour): when a dictionary mapping is accepted, every left mode it names
+with an int key — whatever the value is: an int, a list, a port name — is a left mode of the resolved mapping -/
+theorem resolve_dict_intkey_wired (fx : RFlags) (hs : fx.skip = true) (l r : Side)
+    (items : List (MKey × MVal)) (d : Dict) (k : Int) (v : MVal)
+    (h : resolve fx l r (.ofDict items) = .ok d) (hit : (MKey.int k, v) ∈ items) : k ∈ d.keys := by
+  rw [resolve_dict_eq] at h
+  split_ifs at h
+  cases ha : allPairs fx l r items with
+  | error e => rw [ha] at h; cases h
+  | ok ps =>
+    rw [ha] at h
+    simp only [] at h
+    split at h
+    · cases h
+      obtain ⟨q, hq, hsub⟩ := allPairs_item_sub fx l r items ps ha _ hit
+      have hk : ∃ x, (k, x) ∈ q := by
+        cases v with
+        | int b => rw [itemPairs_int_int] at hq; cases hq; exact ⟨b, by simp⟩
+        | list vs =>
+          obtain ⟨x, -, rfl⟩ := (itemPairs_int_list_ok_iff fx l r k vs q hs).1 hq
+          exact ⟨x, by simp⟩
+        | name s =>
+          obtain ⟨-, -, rfl⟩ := (itemPairs_int_name_ok_iff fx l r k s q hs).1 hq
+          exact ⟨Int.ofNat (r.inNames.idxOf s), by simp⟩
+      obtain ⟨x, hx⟩ := hk
+      obtain ⟨x', hx'⟩ := lastVal_isSome_of_mem ps (hsub _ hx)
+      exact List.mem_map.2 ⟨(k, x'), (dictOf_mem_iff ps k x').2 hx', rfl⟩
+    · cases h
+
+/-- The code as found (`skip = false`) breaks this: `{0: [0], 1: 0}` on a one-mode component is accepted and
+left mode 0 is not wired at all. -/
+theorem resolve_dict_intkey_fails_on_current_code :
+    ¬ ∀ (l r : Side) (items : List (MKey × MVal)) (d : Dict) (k : Int) (v : MVal),
+        resolve ⟨true, false⟩ l r (.ofDict items) = .ok d → (MKey.int k, v) ∈ items → k ∈ d.keys := by
+  intro h
+  have h1 : resolve ⟨true, false⟩ exLp0 exC1' (.ofDict [(.int 0, .list [0]), (.int 1, .int 0)]) =
+      .ok [(1, 0)] := by decide
+  have := h exLp0 exC1' _ _ 0 (.list [0]) h1 (by simp)
+  revert this
+  decide
+
 /-- **`generate_permutation` refuses exactly the dictionaries that leave the modes of interest**: for a mapping
 `resolve` accepted onto a well-formed right-hand object, `generate_permutation` (after the heralded modes were
 appended) returns iff every right-hand value is a mode of interest of the added object — a value on a herald
